@@ -250,7 +250,7 @@ def _read_parameters(
         if annotation is None:
             # try to use the annotation from the signature
             for name in names:
-                with suppress(AttributeError, KeyError):
+                with suppress(AttributeError, KeyError, AliasResolutionError, CyclicAliasError):
                     annotation = docstring.parent.parameters[name].annotation  # type: ignore[union-attr]
                     break
             else:
@@ -260,12 +260,13 @@ def _read_parameters(
 
         if default is None:
             for name in names:
-                with suppress(AttributeError, KeyError):
+                with suppress(AttributeError, KeyError, AliasResolutionError, CyclicAliasError):
                     default = docstring.parent.parameters[name].default  # type: ignore[union-attr]
                     break
 
         if warn_unknown_params:
-            with suppress(AttributeError):  # For Parameters sections in objects without parameters.
+            # For Parameters sections in objects without parameters, or whose `__init__` method cannot be resolved.
+            with suppress(AttributeError, AliasResolutionError, CyclicAliasError):
                 params = docstring.parent.parameters  # type: ignore[union-attr]
                 for name in names:
                     if name not in params:
